@@ -1,0 +1,185 @@
+//go:build verif
+
+package ssh
+
+// Verification hooks for properties C25 and C26 (packet ciphers). Add-only: with
+// the verif tag off this file is not compiled. Nothing here re-implements any
+// framing or cryptography; every constructor goes through cipherModes[...].create,
+// newPacketCipher or newTransport, exactly like prepareKeyChange does.
+
+import (
+	"bufio"
+	"crypto"
+	"errors"
+	"io"
+	"sort"
+)
+
+// VerifC25MaxPacket is the package's maxPacket constant.
+const VerifC25MaxPacket = maxPacket
+
+// VerifC25CipherInfo describes one entry of cipherModes.
+type VerifC25CipherInfo struct {
+	Name    string
+	KeySize int
+	IVSize  int
+	AEAD    bool // listed in aeadCiphers (MAC not negotiated)
+}
+
+// VerifC25MACInfo describes one entry of macModes.
+type VerifC25MACInfo struct {
+	Name    string
+	KeySize int
+}
+
+// VerifC25Ciphers returns every registered cipher mode, sorted by name.
+func VerifC25Ciphers() []VerifC25CipherInfo {
+	var out []VerifC25CipherInfo
+	for name, m := range cipherModes {
+		out = append(out, VerifC25CipherInfo{Name: name, KeySize: m.keySize, IVSize: m.ivSize, AEAD: aeadCiphers[name]})
+	}
+	sort.Slice(out, func(i, j int) bool { return out[i].Name < out[j].Name })
+	return out
+}
+
+// VerifC25MACs returns every registered MAC mode, sorted by name.
+func VerifC25MACs() []VerifC25MACInfo {
+	var out []VerifC25MACInfo
+	for name, m := range macModes {
+		out = append(out, VerifC25MACInfo{Name: name, KeySize: m.keySize})
+	}
+	sort.Slice(out, func(i, j int) bool { return out[i].Name < out[j].Name })
+	return out
+}
+
+// VerifC25AlgorithmLists returns the public name lists (supported, insecure) for
+// ciphers and MACs, so that a check can assert that the registered modes and the
+// advertised lists agree.
+func VerifC25AlgorithmLists() (supCiphers, insCiphers, supMACs, insMACs []string) {
+	s, i := SupportedAlgorithms(), InsecureAlgorithms()
+	return s.Ciphers, i.Ciphers, s.MACs, i.MACs
+}
+
+// VerifC25Cipher is one direction's packetCipher.
+type VerifC25Cipher struct {
+	pc packetCipher
+}
+
+func verifC25Clone(b []byte) []byte {
+	if b == nil {
+		return nil
+	}
+	return append([]byte{}, b...)
+}
+
+// VerifC25New builds a packetCipher for (cipher, mac) from explicit key material via
+// cipherModes[cipher].create, the function newPacketCipher ends in. The slices are
+// copied (gcmCipher keeps and mutates iv).
+func VerifC25New(cipher, mac string, key, iv, macKey []byte) (*VerifC25Cipher, error) {
+	mode := cipherModes[cipher]
+	if mode == nil {
+		return nil, errors.New("verif: unknown cipher " + cipher)
+	}
+	if len(key) != mode.keySize || len(iv) != mode.ivSize {
+		return nil, errors.New("verif: wrong key or iv size for " + cipher)
+	}
+	if !aeadCiphers[cipher] {
+		mm := macModes[mac]
+		if mm == nil {
+			return nil, errors.New("verif: unknown MAC " + mac)
+		}
+		if len(macKey) != mm.keySize {
+			return nil, errors.New("verif: wrong MAC key size for " + mac)
+		}
+	}
+	pc, err := mode.create(verifC25Clone(key), verifC25Clone(iv), verifC25Clone(macKey), DirectionAlgorithms{Cipher: cipher, MAC: mac})
+	if err != nil {
+		return nil, err
+	}
+	return &VerifC25Cipher{pc: pc}, nil
+}
+
+// VerifC25NewFromKex builds a packetCipher with newPacketCipher, i.e. including
+// generateKeyMaterial. clientToServer selects the key tags (A,C,E) or (B,D,F).
+func VerifC25NewFromKex(cipher, mac string, clientToServer bool, k, h, sessionID []byte, hash crypto.Hash) (*VerifC25Cipher, error) {
+	d := serverKeys
+	if clientToServer {
+		d = clientKeys
+	}
+	if !aeadCiphers[cipher] && macModes[mac] == nil {
+		return nil, errors.New("verif: unknown MAC " + mac)
+	}
+	pc, err := newPacketCipher(d, DirectionAlgorithms{Cipher: cipher, MAC: mac},
+		&kexResult{K: verifC25Clone(k), H: verifC25Clone(h), SessionID: verifC25Clone(sessionID), Hash: hash})
+	if err != nil {
+		return nil, err
+	}
+	return &VerifC25Cipher{pc: pc}, nil
+}
+
+// VerifC25NewNone returns the cipher a fresh transport starts with (mode "none").
+func VerifC25NewNone() *VerifC25Cipher {
+	t := newTransport(verifC25NopRWC{}, nil, true)
+	return &VerifC25Cipher{pc: t.reader.packetCipher}
+}
+
+type verifC25NopRWC struct{}
+
+func (verifC25NopRWC) Read([]byte) (int, error)    { return 0, io.EOF }
+func (verifC25NopRWC) Write(p []byte) (int, error) { return len(p), nil }
+func (verifC25NopRWC) Close() error                { return nil }
+
+// WritePacket calls writeCipherPacket with an explicit sequence number. The payload
+// is copied first because writers may encrypt it in place.
+func (c *VerifC25Cipher) WritePacket(seq uint32, w io.Writer, rand io.Reader, payload []byte) error {
+	return c.pc.writeCipherPacket(seq, w, rand, append([]byte{}, payload...))
+}
+
+// ReadPacket calls readCipherPacket with an explicit sequence number and returns a
+// copy of the payload.
+func (c *VerifC25Cipher) ReadPacket(seq uint32, r io.Reader) ([]byte, error) {
+	p, err := c.pc.readCipherPacket(seq, r)
+	if p != nil {
+		p = append([]byte{}, p...)
+	}
+	return p, err
+}
+
+// VerifC25Conn is a connectionState (the owner of the per-direction sequence
+// number) around a packetCipher, with the buffered reader/writer it needs.
+type VerifC25Conn struct {
+	cs connectionState
+	bw *bufio.Writer
+	br *bufio.Reader
+}
+
+// VerifC25NewWriterConn wraps c in a connectionState whose sequence number starts
+// at seq and which writes to w.
+func VerifC25NewWriterConn(c *VerifC25Cipher, seq uint32, w io.Writer) *VerifC25Conn {
+	return &VerifC25Conn{
+		cs: connectionState{packetCipher: c.pc, seqNum: seq, pendingKeyChange: make(chan packetCipher, 1)},
+		bw: bufio.NewWriter(w),
+	}
+}
+
+// VerifC25NewReaderConn wraps c in a connectionState whose sequence number starts
+// at seq and which reads from r.
+func VerifC25NewReaderConn(c *VerifC25Cipher, seq uint32, r io.Reader) *VerifC25Conn {
+	return &VerifC25Conn{
+		cs: connectionState{packetCipher: c.pc, seqNum: seq, pendingKeyChange: make(chan packetCipher, 1)},
+		br: bufio.NewReader(r),
+	}
+}
+
+// WritePacket is connectionState.writePacket (non-strict mode).
+func (c *VerifC25Conn) WritePacket(rand io.Reader, payload []byte) error {
+	return c.cs.writePacket(c.bw, rand, append([]byte{}, payload...), false)
+}
+
+// ReadPacket is connectionState.readPacket (non-strict mode).
+func (c *VerifC25Conn) ReadPacket() ([]byte, error) {
+	return c.cs.readPacket(c.br, false)
+}
+
+// SeqNum returns the connectionState's current sequence number.
+func (c *VerifC25Conn) SeqNum() uint32 { return c.cs.seqNum }
